@@ -179,6 +179,7 @@ type hand struct {
 	rawTwin *pokerface.GameState // the twin's own state after the last op (before any resynchronisation)
 	dead    bool                 // a panic ended the history
 	closed  bool
+	opts    *pokerface.GameOptions // the options value the game was built from
 }
 
 func cloneJSON(gs *pokerface.GameState) *pokerface.GameState {
@@ -285,6 +286,7 @@ func startHand(o *Out, line string, twin bool) *hand {
 		return g.Start()
 	})
 	h.g = g
+	h.opts = opts
 	if pan {
 		h.dead = true
 		o.Emit(line, "st err=panic")
@@ -554,19 +556,25 @@ func (h *hand) noise(k int) {
 		return
 	}
 	safely(func() error {
-		switch k % 4 {
+		switch k % 5 {
 		case 0:
 			_ = pokerface.NewStardardGameOptions()
 		case 1:
 			_ = pokerface.NewShortDeckGameOptions()
 		case 2:
 			_ = pokerface.NewStandardDeckCards()
-		default:
+		case 3:
 			_ = pokerface.NewShortDeckCards()
+		default:
+			// a second game built (and started: Start() shuffles) from the SAME options value as the hand under test
+			if h.opts != nil {
+				g2 := pokerface.NewPokerFace().NewGame(h.opts)
+				_ = g2.Start()
+			}
 		}
 		return nil
 	})
-	h.o.Emit(fmt.Sprintf("noise %d", k%4), "ok")
+	h.o.Emit(fmt.Sprintf("noise %d", k%5), "ok")
 	h.o.Count("engine.noise_calls")
 }
 
